@@ -50,12 +50,16 @@ ASSUMPTIONS = [
     "smooth enough over the stencil, e.g. at the onset of rate-dependent flow; excluded and counted)",
     "material constants are runtime arguments of the compiled programs (model constructed inside the traced function)",
     "J2 constants: set A of C09 (E=100, nu=0.321, Y0=0.3; H=1; Ysat=1.2, eps0=0.05; n=4, eps0=0.003; S=0.3, m=2, epsDot0=0.1), "
-    "thorough adds set B and perfect plasticity; viscoelastic: (K, G, branches) sets of C11; elastic models: the three (E, nu) "
+    "thorough adds set B (finite kinematics, rate independent) and perfect plasticity (linear hardening); viscoelastic: (K, G, branches) sets of C11; elastic models: the three (E, nu) "
     "sets of C08; dt = 1 (J2), dt = tau_ref (viscoelastic)",
     "BFS states are computed with single compiled calls of the real compute_state_new (no batch: D11 cannot leak into the "
     "states), de-duplicated on the internal variables rounded to 1e-10; non-finite states are dropped and counted (C09/C11 "
     "judge the update itself)",
-    "x64, CPU; autodiff batches always exactly 64 cases (pad = undeformed virgin state), stencil batches exactly 832 points",
+    "x64, CPU; single-call mode = one compiled call per (case, direction) of jax.jvp(jax.value_and_grad(W)); batched mode "
+    "= jit(vmap over exactly 64 cases (pad = undeformed virgin state) of vmap over the 9 directions); stencil batches "
+    "exactly 832 points",
+    "the forward-mode derivative of the energy value (a by-product of jax.jvp) is compared with jax.grad for the record "
+    "only (tracked, unjudged: the statement names jax.grad and jax.jvp(jax.grad))",
     "D11 / tangent classification by the measured relative gap (<= 1e-6) of the tensors handed to the eigen-solver: "
     "C = F^T F, Ce = Fp^-T C Fp^-1 (J2 finite), Ce of every branch (viscoelastic)",
 ]
@@ -146,7 +150,7 @@ def _visco_actions(tier):
     if tier == "quick":
         ts, rs = ["uniax-rot", "shear+", "generic", "hold"], ["1e-2", "1e2"]
     else:
-        ts, rs = ["uniax+", "uniax-rot", "shear+", "equibiax", "generic", "hold"], ["1e-2", "1", "1e2"]
+        ts, rs = ["uniax+", "uniax-rot", "shear+", "generic", "hold"], ["1e-2", "1e2"]
     return [(t, r) for t in ts for r in rs]
 
 
@@ -169,7 +173,13 @@ class _Programs:
                 return W, P, dW, T
             W, P, dW, T = jax.vmap(one)(basis)
             return W[0], P[0], dW, T
-        self.der1 = jax.jit(der)
+        def der_dir(H, s, dt, p, V):
+            (W, P), (dW, T) = jax.jvp(lambda X: vg(X, s, dt, p), (H,), (V,))
+            return W, P, dW, T
+        # single-call mode: ONE direction per compiled call (a vmap over the 9 directions is already a compiled batch
+        # in which XLA may duplicate the eigen-decomposition, cf. D11); batched mode: vmap over cases and directions
+        self.der1 = jax.jit(der_dir)
+        self.basis = onp.eye(9).reshape(9, 3, 3)
         self.derB = jax.jit(jax.vmap(der, (0, 0, None, None)))
         self.wB = jax.jit(jax.vmap(mdl.energy, (0, None, None, None)))
         self._w1 = None
@@ -196,7 +206,15 @@ class _Programs:
         return onp.array([self.w1(x, s, dt, p) for x in pts])
 
     def ad_single(self, H, s, dt, p):
-        return tuple(onp.asarray(x, dtype=float) for x in self.der1(H, s, dt, p))
+        W = P = None
+        dW, T = [], []
+        for V in self.basis:
+            w, g, dw, t = self.der1(H, s, dt, p, V)
+            if W is None:
+                W, P = onp.asarray(w, dtype=float), onp.asarray(g, dtype=float)
+            dW.append(float(dw))
+            T.append(onp.asarray(t, dtype=float))
+        return W, P, onp.array(dW), onp.stack(T)
 
     def ad_batched(self, Hs, Ss, s_pad, dt, p):
         n = Hs.shape[0]
@@ -389,11 +407,11 @@ def _run_cases(rec, mdl, prog, name, cases, s_pad, dt, p, M, eigen_based, seed):
                         key, outcome = TANGENT_KEY, "tangent-at-repeated-principal-values"
                         rec.branch("protocol:second derivative wrong as single call at repeated principal values")
                     elif mode == "batched" and okS:
-                        key = "%s|batched-only|%s|%s|%s" % (name, oname, c.klass, sig)
+                        key = "%s|batched-only|%s-derivative|%s" % (name, oname, sig)
                         outcome = "fail:batched-only:" + sig
                         rec.branch("protocol:batched-only violation")
                     else:
-                        key = "%s|%s|%s|%s|%s" % (name, "single+batched" if not okS else mode, oname, c.klass, sig)
+                        key = "%s|any-mode|%s-derivative|%s" % (name, oname, sig)
                         outcome = "fail:" + sig
                         rec.branch("protocol:ordinary violation")
                     _violation(rec, key, cid, det)
@@ -539,9 +557,10 @@ def _run_elastic(g, tier, seed, rec):
 def _j2_sets(cfg, tier):
     from mc.props import c09
     names = ["A"]
-    if tier == "thorough":
-        names.append("B")
-        if cfg["law"] == "linear" and not cfg["rate"]:
+    if tier == "thorough" and not cfg["rate"]:
+        if cfg["kin"] == "large":
+            names.append("B")
+        if cfg["law"] == "linear" and cfg["kin"] in ("large", "small"):
             names.append("P")
     out = []
     for n in names:
